@@ -124,6 +124,79 @@ fn c08_advance_average_index_plain() {
     core::mem::forget(info);
 }
 
+/// Same for the infoset type of the multi-threaded solvers.
+#[kani::proof]
+#[kani::unwind(4)]
+#[kani::stub(f64::powf, powf_half)]
+fn c08_advance_average_index_mutex() {
+    let g: u8 = kani::any();
+    kani::assume(g >= 1 && g <= 3);
+    let p = RegretParams::new(f64::INFINITY, f64::INFINITY, g as f64, 0.0);
+    let it: u8 = kani::any();
+    kani::assume(it >= 1 && it <= 16);
+    let mut info = MutexRegretInfoset {
+        cum_regret: Box::new([AtomicF64::new(1.0), AtomicF64::new(-1.0)]) as Box<[AtomicF64]>,
+        cum_strat: Mutex::new(Box::new([1.0, 3.0]) as Box<[f64]>),
+        strat: Box::new([0.25, 0.75]) as Box<[f64]>,
+    };
+    let _ = MutexPlayerRecurse::advance(&mut info, it as u64, &p);
+    kani::cover!(it == 5 && g == 2, "iteration 5, gamma 2");
+    unsafe {
+        let t = it as f64;
+        assert!(POW_CALLS == 1, "C08 average: the average strategy must be discounted exactly once per update (multi-thread infoset)");
+        assert!(POW_BASE >= t / (t + 1.0) - 1e-12 && POW_BASE <= t / (t + 1.0) + 1e-12, "C08 average: discount base is not t/(t+1) for the current iteration (multi-thread infoset)");
+        assert!(POW_EXP == g as f64, "C08 average: discount exponent is not gamma (multi-thread infoset)");
+    }
+    let cs = info.cum_strat.get_mut().unwrap();
+    assert!(cs[0] == 0.5 && cs[1] == 1.5, "C08 average: average strategy not scaled by the weight (multi-thread infoset)");
+    core::mem::forget(info);
+}
+
+/// The regret discount of iteration t is computed with index t (finite exponents: gen_discount is
+/// replaced by a recorder; the special exponents above cannot see the index).
+static mut GD_ITS: [u64; 4] = [0; 4];
+static mut GD_N: usize = 0;
+pub(crate) fn gen_discount_rec(it: u64, _discount: f64) -> f64 {
+    unsafe {
+        if GD_N < 4 {
+            GD_ITS[GD_N] = it;
+        }
+        GD_N += 1;
+    }
+    0.5
+}
+
+#[kani::proof]
+#[kani::unwind(4)]
+#[kani::stub(RegretParams::gen_discount, gen_discount_rec)]
+fn c08_advance_regret_discount_index() {
+    let p = RegretParams::new(1.5, 0.5, 0.0, 0.0);
+    let it: u8 = kani::any();
+    kani::assume(it >= 1 && it <= 100);
+    let mut info = RegretInfoset {
+        cum_regret: Box::new([2.0, -4.0]) as Box<[f64]>,
+        cum_strat: Box::new([1.0, 3.0]) as Box<[f64]>,
+        strat: Box::new([0.25, 0.75]) as Box<[f64]>,
+    };
+    let b = PlayerRecurse::advance(&mut info, it as u64, &p);
+    let mut minfo = MutexRegretInfoset {
+        cum_regret: Box::new([AtomicF64::new(2.0), AtomicF64::new(-4.0)]) as Box<[AtomicF64]>,
+        cum_strat: Mutex::new(Box::new([1.0, 3.0]) as Box<[f64]>),
+        strat: Box::new([0.25, 0.75]) as Box<[f64]>,
+    };
+    let b2 = MutexPlayerRecurse::advance(&mut minfo, it as u64, &p);
+    kani::cover!(it == 7, "iteration 7");
+    unsafe {
+        assert!(GD_N == 4, "C08 order: each update must compute one positive and one negative regret discount");
+        assert!(GD_ITS[0] == it as u64 && GD_ITS[1] == it as u64 && GD_ITS[2] == it as u64 && GD_ITS[3] == it as u64,
+            "C08 order: regret discount computed with an iteration index other than the current one");
+    }
+    assert!(info.cum_regret[0] == 1.0 && info.cum_regret[1] == -2.0, "C08 order: regrets not multiplied by their discount factors");
+    assert!(b == 2.0 * 1.0 / it as f64 && b2 == b, "C02 bound: reported bound is not 2*max(R,0)/t of the discounted regrets");
+    core::mem::forget(info);
+    core::mem::forget(minfo);
+}
+
 #[cfg(test)]
 #[path = "/verif/.work/playback/advance.rs"]
 mod pb;
